@@ -1,5 +1,6 @@
 import IrVerif.Drive.Util
 import IrVerif.Model.Scope
+import IrVerif.Model.ScopeSer
 /-! Protocol handler for `IrVerif.Scope` (C03 / C17).
 
 Info    = [ty|null, sh|null, doc|null]
@@ -197,7 +198,7 @@ def handle : Handler := fun m j =>
         return obj ([("ok", toJson true), ("world", worldJ w)] ++ extra)
   | "scope.ser" => some do
       let w ← parseWorld (j.getObjValD "w")
-      let base := serJ w
+      let base := serJ w ++ [("serializable", toJson (serializableB w))]
       match serialize w with
       | .error _ => return obj base
       | .ok (w1, p) =>
